@@ -45,6 +45,27 @@ def translate(ctx):
     writer_tables.generate(ctx.repo)
 
 
+def eval_with_retry(ctx, tag, requires, prelude, check_fn, terms, shard, ty, tries=3):
+    """coqrun.eval_bad_indices, re-running shards whose coqc process died (the machine is shared: a killed or
+    starved process is a machinery problem, not a finding). Returns (bad indices, errors still failing)."""
+    bad, errors = coqrun.eval_bad_indices(tag, requires, prelude, check_fn, terms, shard=shard, ty=ty)
+    attempt = 1
+    while errors and attempt < tries:
+        attempt += 1
+        ctx.log(f"{len(errors)} shard(s) of {tag} failed to evaluate; retry {attempt}")
+        still = []
+        for k, out in errors:
+            sub = terms[k:k + shard]
+            half = max(1, (len(sub) + 1) // 2)
+            b2, e2 = coqrun.eval_bad_indices(f"{tag}-retry{attempt}-{k}", requires, prelude, check_fn, sub, shard=half, ty=ty)
+            bad.extend(k + i for i in b2)
+            still.extend((k + kk, o) for kk, o in e2)
+            shard_next = half
+        errors = still
+        shard = shard_next
+    return sorted(bad), errors
+
+
 # ------------------------------------------------------------------------------------------------
 # molecule generation (shared with C07)
 
@@ -215,33 +236,19 @@ def impl_call(molrec, cfg, mol=None):
     return ("Ok", text, _canon_kw(data["keywords"]))
 
 
-def sdf_connectivity(molrec, cfg):
-    """what the sdf branch will list as bonds: molrec's connectivity or guess_connectivity's answer (external)."""
+def sdf_connectivity(molrec, out):
+    """the bonds the sdf branch lists: molrec's connectivity, or — when the molecule has none — whatever
+    guess_connectivity answered, read off the implementation's own bond block (external input of the model)."""
     conn = molrec.get("connectivity", None)
-    if conn is None:
-        from qcelemental import constants
-        from qcelemental.molutil import guess_connectivity
-        units = cfg["units"] or "Angstrom"
-        try:
-            f = factor_float(molrec, units)
-            geom = np.asarray(molrec["geom"]).reshape((-1, 3)) * f
-            conn = guess_connectivity(molrec["elem"], geom * constants.conversion_factor("Angstrom", "Bohr"), default_connectivity=1)
-        except Exception:
-            conn = []
-    return [(int(a), int(b), int(c)) for a, b, c in conn]
-
-
-def factor_float(molrec, units):
-    """what to_string multiplies by, recomputed only for feeding guess_connectivity (external)."""
-    from qcelemental import constants
-    s, u = molrec["units"], units.capitalize()
-    if s == u:
-        return 1.0
-    if s == "Angstrom" and u == "Bohr":
-        return molrec.get("input_units_to_au", 1.0 / constants.bohr2angstroms)
-    if s == "Bohr" and u == "Angstrom":
-        return constants.bohr2angstroms
-    return constants.conversion_factor(s, units)
+    if conn is not None:
+        return [(int(a), int(b), int(c)) for a, b, c in conn]
+    if out[0] != "Ok":
+        return []
+    try:
+        r = read_text("nglview-sdf", out[1], out[2])
+        return [(a - 1, b - 1, o) for a, b, o in r["bonds"]]
+    except Exception:
+        return []
 
 
 # ------------------------------------------------------------------------------------------------
@@ -697,7 +704,7 @@ def run_case(arrays, cfg, via):
     d = cfg["dtype"].lower()
     units = cfg["units"] if cfg["units"] is not None else DEFAULT_UNIT.get(d, "Bohr")
     conv = _conv(molrec, units)
-    conn = sdf_connectivity(molrec, cfg) if d == "nglview-sdf" else []
+    conn = sdf_connectivity(molrec, out) if d == "nglview-sdf" else []
     return molrec, out, conv, conn
 
 
@@ -712,7 +719,7 @@ def correspond(ctx):
     for a in CORPUS_ARRAYS:
         for cfg in corpus_cfgs():
             cases.append(("corpus", a, cfg, "from_arrays"))
-    nmol = 1500 if ctx.thorough else 200
+    nmol = 1200 if ctx.thorough else 200
     for k in range(nmol):
         arrays, _ = gen_molrec(rng)
         via = "molecule" if k % 4 == 3 else "from_arrays"
@@ -743,8 +750,8 @@ def correspond(ctx):
             corr.sample({"input": case, "output": list(out)})
     corr.sample({"input": {"arrays": CORPUS_ARRAYS[0], "cfg": corpus_cfgs()[0]}, "output": list(meta[0][2])})
     ctx.log(f"{len(terms)} cases through the implementation; evaluating the model")
-    bad, errors = coqrun.eval_bad_indices("C08", REQ, PRELUDE, "check_case", terms, shard=100 if not ctx.thorough else 200,
-                                          ty="wcfg * molrec * outcome (string * keywords)")
+    bad, errors = eval_with_retry(ctx, "C08", REQ, PRELUDE, "check_case", terms, 100 if not ctx.thorough else 200,
+                                  "wcfg * molrec * outcome (string * keywords)")
     corr.errors.extend(f"shard {k}: {e}" for k, e in errors)
     for b in bad[:6]:
         stream, case, out = meta[b]
